@@ -191,6 +191,19 @@ def c20(tier):
                   assumptions=["the registry snapshot /verif/models/ipfix_registry.json was taken from the pinned tree's shipped file (the IANA registry is not reachable offline): drift and disagreement are detected, a transcription error common to both tables and the snapshot is not"], t0=t0)
 
 
+@check("C04")
+def c04(tier):
+    t0 = time.time()
+    b = build("flow")
+    res = [run_space(b, "cache.bfs", tier, nshards=2, hang_s=300)]
+    return finish("C04", tier, res,
+                  rule="explicit-state BFS to closure, IPFIX and NetFlow v9: state = reference map over 6 keys (A/256, A/257, the same IPv4 in 4-byte form, an IPv6 exporter, and two exporters whose addr||id collide under 32-bit FNV-1; thorough adds an IPv6 colliding pair) -> one of 3 (thorough 4) definitions of equal record length or none; events per key: announce alone / template then data in one message / data then template in one message / data / peer IRPC.Get / peer-fetched insert; "
+                       "successor = replay of the shortest history on a fresh real cache + the event; after every transition every key is probed with a data message (decoded under exactly ref[k], or 'unknown template' with no records) and the canonical cache content must be a function of the reference state. Non-trivial = every reference state; distinct by state.",
+                  assumptions=["states are merged on the reference map; the implementation's canonical cache content (read from the exported structure, timestamps dropped) is checked to be a function of it, which is what makes the merge sound",
+                               "the FNV-colliding exporter pairs were found offline by a birthday search and are recomputed with hash/fnv at start-up",
+                               "peer-fetched insert uses the cache's private insert through a verif-tagged export file injected by the overlay"], t0=t0)
+
+
 def main(argv):
     if len(argv) >= 1 and argv[0] == "--setup":
         for n in BINARIES:
